@@ -183,6 +183,8 @@ class Effects(object):
             if v.op == 'call':
                 fv = v.args[0]
                 args = list(v.args[1].items)
+                if isinstance(fv, ERef) and fv.name == 'copy.deepcopy':
+                    return out          # a deep copy shares nothing
                 f = None
                 if isinstance(fv, FRef):
                     f = fv.fi
